@@ -20,12 +20,16 @@ def sessions(ctx):
 
 
 def run(ctx):
-    return sessbase.run_property(ctx, 'C06',
+    rep = sessbase.run_property(ctx, 'C06',
         'P1: TLC checks ShownIffSelected / RecordedAll / CommandsDoNotRewrite / HistoryAppendOnly over all behaviours of two '
         'connections with filter and connection-selection commands inserted at every point; P2: the behaviours are replayed '
         '(commands issued between lines); P3: random sessions with generated matchers (from -f and `filter`), selections and '
         'queries. Which message lines appear in each step and the recorded history are compared with Session!Step by TLC.',
         [('MC_Session_live.cfg', 'C06 live view')], sessions(ctx))
+    # the same through GDB mode (`wl ...` commands typed while the program is halted, messages arriving as closures)
+    from props import gdbbase
+    gdbbase.gdb_batch(ctx, rep, relevant('C06'), ctx.pick(40, 400), 1000303)
+    return rep
 
 
 def replay(ctx, data):
